@@ -2,20 +2,22 @@
 (DESIGN.md section 5, C15).
 
 Case kinds (abstract inputs; the same input goes to the real code and to the Coq model):
-  struct   an expression over analyses (any bracketing, `sum([...])`, with_model leaves,
-           optional with_free_parameters): class and members of the combined analysis
-  hist     a sum of plain analyses + a history of evaluations (some raising), changes of n_cores,
-           and a scripted schedule of the pool for every evaluation
-  idx      free parameters / per-analysis models: members, sharing classes of the fitted model,
-           prior count, histories of evaluations on instances of the fitted model
-  folders  visualize through _for_each_analysis (serial) or AnalysisPool.map (pool)
-  fit      a real MockSearch fit: folders written by save_attributes/save_results, child results
+  struct   an expression over analyses (any bracketing, `sum([...])`, with_model leaves, the same
+           analysis twice, with_free_parameters anywhere): class and members of the result, or the error
+  hist     a sum of plain analyses + a history of evaluations (some raising FitException / ValueError),
+           visualize calls (through AnalysisPool.map when a pool exists), changes of n_cores (setter or
+           general.yaml), and a scripted schedule of the pool for every call
+  idx      free parameters / per-analysis models (or both): members, sharing classes of the fitted
+           model, prior count, histories on instances of the fitted model
+  fit      a real MockSearch fit of a plain / with_model / free-parameter sum, any bracketing, 1-2 cores:
+           who wrote into folder i (save_attributes, visualize_before_fit, save_results and the child
+           result it was handed) and what child result i is
 """
 import json
 import os
 
 from . import common
-from .common import cZ, cnat, cbool, clist, copt
+from .common import cZ, cnat, cbool, clist
 
 FINDING_FLAGS = [
     # (signature in known_findings/C15.json, class label, cfg field)
@@ -23,15 +25,19 @@ FINDING_FLAGS = [
     ("plain-combined-plus-model-combined", "mixed:plain-plus-model-combined", "fix_new"),
     ("pool-stale-results-after-raise", "pool:stale-after-raise", "fix_drain"),
     ("pool-map-folder-per-process", "pool:map-folder-per-process", "fix_map"),
+    ("free-parameters-drop-own-models", "free:over-own-models", "fix_free_own"),
+    ("model-analysis-drops-save-hooks", "fit:with-model-save-hooks", "fix_model_hooks"),
 ]
-L_ORDER, L_MIXED, L_STALE, L_MAP = [x[1] for x in FINDING_FLAGS]
+L_ORDER, L_MIXED, L_STALE, L_MAP, L_FREE_OWN, L_HOOKS = [x[1] for x in FINDING_FLAGS]
+L_FREE_RIGHT = "free:right-of-combined"       # (x + y) + free-parameter sum is accepted silently (no repair flag)
+EXC_KINDS = {"FitException": 0, "ValueError": 1}
 
 
 def model_cfg(ctx):
     """Which repairs the Coq model is asked to contain: a defect listed with status `known` is
-    modelled as present (faithful to the pinned tree); once it is listed as `fixed` (or not listed)
-    the repaired behaviour is the one the code must correspond to.
-    C15_ASSUME_FIXED=sig1,sig2 (used to try a proposed fix on a scratch copy via VERIF_REPO) treats
+    modelled as present; once it is listed as `fixed` (or not listed) the repaired behaviour is the
+    one the code must correspond to.
+    C15_ASSUME_FIXED=sig1,sig2|all (used to try a proposed fix on a scratch copy via VERIF_REPO) treats
     the named findings as fixed for this run: no suppression, repaired model."""
     forced = [x for x in os.environ.get("C15_ASSUME_FIXED", "").split(",") if x]
     if forced:
@@ -44,11 +50,13 @@ def model_cfg(ctx):
 # expressions
 # ---------------------------------------------------------------------------
 def desugar(e):
-    """binary tree ('L', j, hm) | ('A', l, r); sum([...]) is a left fold (Analysis.__radd__)."""
+    """tree ('L', j, hm) | ('A', l, r) | ('F', e); sum([...]) is a left fold (Analysis.__radd__)."""
     if "j" in e:
         return ("L", e["j"], bool(e.get("hm")))
     if "add" in e:
         return ("A", desugar(e["add"][0]), desugar(e["add"][1]))
+    if "free" in e:
+        return ("F", desugar(e["free"]))
     xs = [desugar(x) for x in e["sum"]]
     t = xs[0]
     for x in xs[1:]:
@@ -57,7 +65,15 @@ def desugar(e):
 
 
 def leaves(t):
-    return [(t[1], t[2])] if t[0] == "L" else leaves(t[1]) + leaves(t[2])
+    if t[0] == "L":
+        return [(t[1], t[2])]
+    if t[0] == "F":
+        return leaves(t[1])
+    return leaves(t[1]) + leaves(t[2])
+
+
+def nofree(t):
+    return t[0] == "L" or (t[0] == "A" and nofree(t[1]) and nofree(t[2]))
 
 
 def labels_of_tree(t):
@@ -67,11 +83,16 @@ def labels_of_tree(t):
     def go(t):
         if t[0] == "L":
             return
+        if t[0] == "F":
+            go(t[1])
+            return
         a, b = t[1], t[2]
         if a[0] == "L" and b[0] == "A":
             out.add(L_ORDER)
         if a[0] == "A" and b[0] == "A" and not any(h for _, h in leaves(a)) and any(h for _, h in leaves(b)):
             out.add(L_MIXED)
+        if a[0] == "A" and b[0] == "F":
+            out.add(L_FREE_RIGHT)
         go(a)
         go(b)
     go(t)
@@ -81,6 +102,8 @@ def labels_of_tree(t):
 def coq_expr(t):
     if t[0] == "L":
         return "(Leaf %s %s)" % (cnat(t[1]), cbool(t[2]))
+    if t[0] == "F":
+        return "(Free %s)" % coq_expr(t[1])
     return "(Add %s %s)" % (coq_expr(t[1]), coq_expr(t[2]))
 
 
@@ -89,7 +112,6 @@ def rand_tree(rng, leafs, p_sum=0.25):
     if len(leafs) == 1:
         return leafs[0]
     if len(leafs) >= 2 and rng.random() < p_sum:
-        # n-ary sum of sub-expressions
         k = rng.randint(2, min(4, len(leafs)))
         cuts = sorted(rng.sample(range(1, len(leafs)), k - 1))
         parts = [leafs[a:b] for a, b in zip([0] + cuts, cuts + [len(leafs)])]
@@ -118,11 +140,18 @@ def all_trees(leafs):
 # ---------------------------------------------------------------------------
 # generator
 # ---------------------------------------------------------------------------
-def gen_ads(rng, n, nslots, pool_vals):
+def gen_ads(rng, n, nslots, pool_vals, vis=False):
     ads = []
+    two_kinds = rng.random() < 0.5
     for _ in range(n):
-        fail = [v for v in pool_vals if rng.random() < 0.12]
-        ads.append({"c": rng.randint(-20, 20), "w": [rng.randint(-9, 9) for _ in range(nslots)], "fail": fail})
+        fail = [v for v in pool_vals if rng.random() < 0.10]
+        fail2 = [v for v in pool_vals if v not in fail and rng.random() < 0.07] if two_kinds else []
+        ad = {"c": rng.randint(-20, 20), "w": [rng.randint(-9, 9) for _ in range(nslots)], "fail": fail, "fail2": fail2,
+              "vfail": [], "vfail2": []}
+        if vis:
+            ad["vfail"] = [v for v in pool_vals if rng.random() < 0.08]
+            ad["vfail2"] = [v for v in pool_vals if v not in ad["vfail"] and rng.random() < 0.05]
+        ads.append(ad)
     return ads
 
 
@@ -134,19 +163,25 @@ def gen_masks(rng, nproc):
     return rows
 
 
-def gen_ops(rng, n, neval, value):
-    """history: optional change of cores, evaluations with schedules"""
+def gen_ops(rng, n, neval, value, max_cores=4, p_map=0.2):
+    """history: changes of cores, evaluations and visualize calls with schedules"""
     ops = []
-    cores = 1
+    cores, pool_procs = 1, 0
     if rng.random() < 0.85:
-        cores = rng.choice([2, 2, 3, 4, 1])
+        cores = rng.choice([2, 2, 3, max_cores, 1])
         ops.append(["cores", cores])
+        if cores > 1:
+            pool_procs = min(n, cores)
     for _ in range(neval):
-        if rng.random() < 0.12:
-            cores = rng.choice([1, 2, 3, 4])
+        if rng.random() < 0.15:
+            cores = rng.choice([1, 1, 2, 3, max_cores])
             ops.append(["cores", cores])
-        nproc = min(n, cores) if cores > 1 else 0
-        ops.append(["eval", value(), gen_masks(rng, nproc) if nproc else []])
+            if cores > 1:
+                pool_procs = min(n, cores)
+        if rng.random() < p_map:
+            ops.append(["map", value(), gen_masks(rng, pool_procs) if pool_procs else []])
+        else:
+            ops.append(["eval", value(), gen_masks(rng, pool_procs) if cores > 1 else []])
     return ops
 
 
@@ -170,44 +205,87 @@ def gen_shape_and_pids(rng):
     return shape, pids
 
 
+def gen_own(rng, ids, hm, pids):
+    own, fresh = {}, 20
+    for j, h in zip(ids, hm):
+        if not h or str(j) in own:
+            continue
+        row = []
+        for p in pids:
+            r = rng.random()
+            if r < 0.4:
+                row.append(p)                               # shared with the default model
+            elif r < 0.55 and own:
+                row.append(rng.choice(rng.choice(list(own.values()))))   # shared with another own model
+            else:
+                row.append(fresh)
+                fresh += 1
+        own[str(j)] = row
+    return own
+
+
+def gen_free_items(rng, shape, pids, own=None):
+    items = []
+    for _ in range(rng.randint(1, 3)):
+        r = rng.random()
+        if r < 0.55:
+            src = pids if not own or rng.random() < 0.6 else rng.choice(list(own.values()))
+            items.append({"prior": rng.choice(src)})
+        elif r < 0.85:
+            items.append({"component": rng.randrange(len(shape))})
+        else:
+            items.append({"prior": 50 + rng.randint(0, 3)})      # a prior no model contains
+    return items
+
+
 def gen_cases(ctx):
     rng = ctx.rng
     thorough = ctx.tier == "thorough"
     cases = []
-    # ---- struct: every bracketing of 2..4 leaves x every with_model pattern; random larger ones
+    # ---- struct: every bracketing of 2..4 leaves x every with_model pattern; free on top; random larger ones
     for n in (2, 3, 4) + ((5,) if thorough else ()):
         for pat in range(2 ** n):
             leafs = [{"j": j, "hm": bool(pat >> j & 1)} for j in range(n)]
             for t in all_trees(leafs):
-                cases.append({"kind": "struct", "expr": t, "free": False})
+                cases.append({"kind": "struct", "expr": t})
         for t in all_trees([{"j": j} for j in range(n)]):
-            cases.append({"kind": "struct", "expr": t, "free": True})
-    for _ in range(80 if not thorough else 1500):
-        n = rng.randint(3, 7)
+            cases.append({"kind": "struct", "expr": {"free": t}})
+    for _ in range(100 if not thorough else 1500):
+        n = rng.randint(3, 7 if not thorough else 12)
         ids = list(range(n))
         rng.shuffle(ids)
+        if rng.random() < 0.15:
+            ids[rng.randrange(n)] = ids[0]                      # the same analysis object written twice
         pm = rng.choice([0.0, 0.0, 0.25, 0.5])
         leafs = [{"j": j, "hm": rng.random() < pm} for j in ids]
-        free = (not any(x["hm"] for x in leafs)) and rng.random() < 0.3
-        cases.append({"kind": "struct", "expr": rand_tree(rng, leafs), "free": free})
+        r = rng.random()
+        if r < 0.25:
+            expr = {"free": rand_tree(rng, leafs)}
+        elif r < 0.45:
+            # with_free_parameters somewhere inside a sum (or on a single analysis)
+            cut = rng.randint(1, n - 1)
+            a, b = leafs[:cut], leafs[cut:]
+            fa, fb = {"free": rand_tree(rng, a)}, {"free": rand_tree(rng, b)}
+            expr = rng.choice([{"add": [fa, rand_tree(rng, b)]}, {"add": [rand_tree(rng, a), fb]}, {"add": [fa, fb]},
+                               {"sum": [rand_tree(rng, a), fb]}])
+        else:
+            expr = rand_tree(rng, leafs)
+        cases.append({"kind": "struct", "expr": expr})
     # ---- hist
     pool_vals = [-3, -2, -1, 0, 1, 2, 3, 7]
-    for k in range(110 if not thorough else 2000):
-        n = rng.choice([2, 2, 3, 3, 4, 5, 6])
+    for k in range(120 if not thorough else 2000):
+        n = rng.choice([2, 2, 3, 3, 4, 5, 6] + ([8, 10, 12] if thorough else []))
         ids = list(range(n))
         if rng.random() < 0.5:
             rng.shuffle(ids)
-        ads = gen_ads(rng, n, 1, pool_vals)
+        ads = gen_ads(rng, n, 1, pool_vals, vis=True)
         if rng.random() < 0.25:
             for a in ads:
-                a["fail"] = []
-        # mostly well-bracketed (left nested / sums) so that the order finding does not mask the rest
-        if rng.random() < 0.7:
-            expr = {"sum": [{"j": j} for j in ids]} if rng.random() < 0.5 else rand_tree(rng, [{"j": j} for j in ids], 0.0)
-        else:
-            expr = rand_tree(rng, [{"j": j} for j in ids])
-        ops = gen_ops(rng, n, rng.randint(3, 10), lambda: rng.choice(pool_vals))
-        case = {"kind": "hist", "ads": ads, "expr": expr, "ops": ops}
+                a["fail"], a["fail2"] = [], []
+        expr = {"sum": [{"j": j} for j in ids]} if rng.random() < 0.4 else rand_tree(rng, [{"j": j} for j in ids])
+        max_cores = rng.choice([4, n, n + 2])
+        ops = gen_ops(rng, n, rng.randint(3, 10), lambda: rng.choice(pool_vals), max_cores)
+        case = {"kind": "hist", "ads": ads, "expr": expr, "ops": ops, "scale": rng.choice([1, 1, 1024])}
         if k % 6 == 5:
             # n_cores from general.yaml (read by the constructor) instead of the setter
             conf_cores = rng.choice([2, 3])
@@ -220,80 +298,63 @@ def gen_cases(ctx):
                 op[2] = gen_masks(rng, nproc)
             case["conf_cores"] = conf_cores
         cases.append(case)
-    # ---- idx: free parameters
-    for k in range(50 if not thorough else 800):
-        shape, pids = gen_shape_and_pids(rng)
-        n = rng.randint(2, 4)
-        ids = list(range(n))
-        rng.shuffle(ids)
-        items = []
-        for _ in range(rng.randint(1, 3)):
-            r = rng.random()
-            if r < 0.55:
-                items.append({"prior": rng.choice(pids)})
-            elif r < 0.85:
-                items.append({"component": rng.randrange(len(shape))})
-            else:
-                items.append({"prior": 50 + rng.randint(0, 3)})      # a prior the model does not contain
-        vals_pool = [-3, -2, -1, 0, 1, 2, 3, 7]
-        ads = gen_ads(rng, n, len(pids), vals_pool if rng.random() < 0.4 else [])
-        expr = rand_tree(rng, [{"j": j} for j in ids])
-        nvals = len(pids) * n + 2
-        ops = gen_ops(rng, n, rng.randint(2, 5), lambda: [rng.choice(vals_pool) for _ in range(nvals)])
-        cases.append({"kind": "idx", "ads": ads, "expr": expr, "shape": shape, "default": pids, "own": {},
-                      "free": items, "ops": ops})
-    # ---- idx: per-analysis models
-    for k in range(40 if not thorough else 700):
-        shape, pids = gen_shape_and_pids(rng)
-        n = rng.randint(2, 4)
-        ids = list(range(n))
-        rng.shuffle(ids)
-        hm = [rng.random() < 0.6 for _ in ids]
-        if not any(hm):
-            hm[rng.randrange(n)] = True
-        own = {}
-        fresh = 20
-        for j, h in zip(ids, hm):
-            if not h:
-                continue
-            row = []
-            for s, p in enumerate(pids):
-                r = rng.random()
-                if r < 0.4:
-                    row.append(p)                               # shared with the default model
-                elif r < 0.55 and own:
-                    row.append(rng.choice(rng.choice(list(own.values()))))   # shared with another own model
-                else:
-                    row.append(fresh)
-                    fresh += 1
-            own[str(j)] = row
-        vals_pool = [-3, -2, -1, 0, 1, 2, 3, 7]
-        ads = gen_ads(rng, n, len(pids), vals_pool if rng.random() < 0.4 else [])
-        expr = rand_tree(rng, [{"j": j, "hm": h} for j, h in zip(ids, hm)])
-        nvals = len(pids) * n + 2
-        ops = gen_ops(rng, n, rng.randint(2, 5), lambda: [rng.choice(vals_pool) for _ in range(nvals)])
-        cases.append({"kind": "idx", "ads": ads, "expr": expr, "shape": shape, "default": pids, "own": own,
-                      "free": None, "ops": ops})
-    # ---- folders
-    seen = set()
-    for _ in range(14 if not thorough else 40):
+    # ---- hist, unsteered: the raw queue.empty() polling decides the schedule; one exception class only
+    for k in range(4 if not thorough else 30):
         n = rng.randint(2, 6)
-        ids = list(range(n))
-        rng.shuffle(ids)
-        cores = rng.choice([1, 2, 2, 3, 4])
-        if (n, cores) in seen and not thorough:
-            continue
-        seen.add((n, cores))
-        cases.append({"kind": "folders", "ids": ids, "cores": cores})
-    # ---- real fits
-    for _ in range(5 if not thorough else 20):
+        ads = gen_ads(rng, n, 1, pool_vals, vis=True)
+        for a in ads:
+            a["fail2"], a["vfail2"] = [], []
+        ops = [op[:2] + [[]] if op[0] != "cores" else op for op in
+               gen_ops(rng, n, rng.randint(4, 10), lambda: rng.choice(pool_vals))]
+        cases.append({"kind": "hist", "ads": ads, "expr": {"sum": [{"j": j} for j in range(n)]}, "ops": ops,
+                      "scale": 1, "unsteered": True})
+    # ---- idx: free parameters / per-analysis models / both
+    vals_pool = [-3, -2, -1, 0, 1, 2, 3, 7]
+    for k in range(110 if not thorough else 1600):
+        variant = ["free", "own", "free", "own", "both"][k % 5]
         shape, pids = gen_shape_and_pids(rng)
         n = rng.randint(2, 4)
         ids = list(range(n))
         rng.shuffle(ids)
-        free = sorted(set(rng.sample(pids, rng.randint(1, min(2, len(pids))))))
+        hm = [False] * n
+        if variant != "free":
+            hm = [rng.random() < 0.6 for _ in ids]
+            if not any(hm):
+                hm[rng.randrange(n)] = True
+        own = gen_own(rng, ids, hm, pids)
+        ads = gen_ads(rng, n, len(pids), vals_pool if rng.random() < 0.4 else [], vis=True)
+        expr = rand_tree(rng, [{"j": j, "hm": h} for j, h in zip(ids, hm)])
+        free = None
+        if variant != "own":
+            free = gen_free_items(rng, shape, pids, own)
+            expr = {"free": expr}
+        nvals = len(pids) * n + 2
+        ops = gen_ops(rng, n, rng.randint(2, 5), lambda: [rng.choice(vals_pool) for _ in range(nvals)], 3)
+        cases.append({"kind": "idx", "ads": ads, "expr": expr, "shape": shape, "default": pids, "own": own,
+                      "free": free, "ops": ops, "scale": 1})
+    # ---- real fits: plain / with_model / free (/ free over own models), any bracketing, 1-2 cores
+    for k in range(16 if not thorough else 60):
+        variant = ["plain", "own", "free", "plain", "own", "free", "both", "plain"][k % 8]
+        shape, pids = gen_shape_and_pids(rng)
+        n = rng.randint(2, 4)
+        ids = list(range(n))
+        rng.shuffle(ids)
+        hm = [False] * n
+        if variant in ("own", "both"):
+            hm = [rng.random() < 0.6 for _ in ids]
+            if not any(hm):
+                hm[rng.randrange(n)] = True
+        own = gen_own(rng, ids, hm, pids)
+        expr = rand_tree(rng, [{"j": j, "hm": h} for j, h in zip(ids, hm)])
+        free = None
+        if variant in ("free", "both"):
+            free = [{"prior": p} for p in sorted(set(rng.sample(pids, rng.randint(1, min(2, len(pids))))))]
+            expr = {"free": expr}
         ads = gen_ads(rng, n, len(pids), [])
-        cases.append({"kind": "fit", "ads": ads, "ids": ids, "shape": shape, "default": pids, "free": free})
+        case = {"kind": "fit", "ads": ads, "expr": expr, "shape": shape, "default": pids, "own": own, "free": free}
+        if k % 2 == 1:
+            case["conf_cores"] = 2
+        cases.append(case)
     return cases
 
 
@@ -301,9 +362,20 @@ def gen_cases(ctx):
 # reference semantics of the harness analyses and expected values (oracle side)
 # ---------------------------------------------------------------------------
 def lik(ad, s):
-    if s and s[0] in ad["fail"]:
-        return None
+    """int numerator | ('exc', class name)"""
+    if s and s[0] in ad.get("fail", []):
+        return ("exc", "FitException")
+    if s and s[0] in ad.get("fail2", []):
+        return ("exc", "ValueError")
     return ad["c"] + sum(a * b for a, b in zip(ad["w"], s))
+
+
+def vis(ad, s):
+    if s and s[0] in ad.get("vfail", []):
+        return ("exc", "FitException")
+    if s and s[0] in ad.get("vfail2", []):
+        return ("exc", "ValueError")
+    return 0
 
 
 def expected_struct(c):
@@ -311,45 +383,47 @@ def expected_struct(c):
     lv = leaves(t)
     if t[0] == "L":
         return {"kind": "single", "items": [["plain", lv[0][0], lv[0][1]]]}
-    if c.get("free"):
+    if t[0] == "A" and nofree(t):
+        kind = "model" if any(h for _, h in lv) else "plain"
+    elif t[0] == "F" and t[1][0] == "A" and nofree(t[1]):
         kind = "free"
-    elif any(h for _, h in lv):
-        kind = "model"
     else:
-        kind = "plain"
+        return {"kind": "error"}
     if kind == "plain":
         return {"kind": kind, "items": [["plain", j, h] for j, h in lv]}
     return {"kind": kind, "items": [["idx", j, h, i] for i, (j, h) in enumerate(lv)]}
 
 
+def comp_pids(shape, pids):
+    out, pos = [], 0
+    for n in shape:
+        out.append(pids[pos:pos + n])
+        pos += n
+    return out
+
+
 def effective_free(c):
     """prior ids the free-parameter items expand to (harness's own description of the model)"""
     out = []
-    pos = 0
-    comp_pids = []
-    for n in c["shape"]:
-        comp_pids.append(c["default"][pos:pos + n])
-        pos += n
+    cp = comp_pids(c["shape"], c["default"])
     for it in c["free"] or []:
         if "prior" in it:
             out.append(it["prior"])
         else:
-            out += comp_pids[it["component"]]
+            out += cp[it["component"]]
     return out
 
 
 def expected_keys(c):
-    """identity of the prior at (analysis position, slot) as the property declares it"""
+    """identity of the prior at (analysis position, slot) as the property declares it: every analysis
+    reads an instance of its own model (with_model) or of the default one; with free parameters each
+    analysis has its own copy of every free prior of that model"""
     lv = leaves(desugar(c["expr"]))
+    fs = set(effective_free(c)) if c.get("free") is not None else set()
     rows = []
-    if c.get("free") is not None:
-        fs = set(effective_free(c))
-        for i, _ in enumerate(lv):
-            rows.append([("fresh", i, p) if p in fs else ("orig", p) for p in c["default"]])
-    else:
-        for j, h in lv:
-            src = c["own"][str(j)] if h else c["default"]
-            rows.append([("orig", p) for p in src])
+    for i, (j, h) in enumerate(lv):
+        src = c["own"][str(j)] if h else c["default"]
+        rows.append([("fresh", i, p) if p in fs else ("orig", p) for p in src])
     return rows
 
 
@@ -366,14 +440,77 @@ def canon(rows):
     return out, len(num)
 
 
-def val_of(a):
-    """answer -> int | 'exc' | None (not an integer: never expected)"""
+def val_of(a, scale=1):
+    """answer -> int numerator | ('exc', name) | None (not representable: never expected)"""
     if a[0] == "exc":
-        return "exc"
+        return ("exc", a[1])
     if a[0] != "val":
         return None
-    f = float.fromhex(a[1])
+    f = float.fromhex(a[1]) * scale
     return int(f) if f == int(f) else None
+
+
+def expected_call(fn, c, lv, subs, pooled):
+    """expected outcome of one evaluation / visualize: serial -> the first raising analysis' class;
+    pool -> the class of any raising analysis"""
+    rs = [fn(c["ads"][j], s) for (j, _), s in zip(lv, subs)]
+    excs = [r[1] for r in rs if isinstance(r, tuple)]
+    if not excs:
+        return sum(rs), rs
+    if pooled:
+        return ("exc-any", sorted(set(excs))), rs
+    return ("exc", excs[0]), rs
+
+
+def answer_ok(got, exp):
+    if isinstance(exp, tuple) and exp[0] == "exc-any":
+        return isinstance(got, tuple) and got[1] in exp[1]
+    return got == exp
+
+
+def oracle_history(c, r, lv, subs_of, out):
+    """evaluations / visualize calls / residue of hist and idx cases"""
+    scale = c.get("scale", 1)
+    cores, pool, tainted, e = 1, False, False, 0
+    outs = r["outs"]
+    for op in eff_ops(c):
+        if op[0] == "cores":
+            cores = op[1]
+            if cores > 1:
+                pool, tainted = True, False
+            continue
+        subs = subs_of(op[1])
+        got = outs[e] if e < len(outs) else {"ans": ["other", "missing"]}
+        if op[0] == "eval":
+            pooled = cores > 1
+            exp, rs = expected_call(lik, c, lv, subs, pooled)
+            gotv = val_of(got["ans"], scale)
+            if not answer_ok(gotv, exp):
+                out.append(("evaluation %d (n_cores=%d) returned %r, the sum of the analyses is %r" % (e, cores, gotv, exp),
+                            {L_STALE} if (pooled and tainted) else set()))
+        else:
+            pooled = pool
+            exp, rs = expected_call(vis, c, lv, subs, pooled)
+            gotv = val_of(got["ans"], 1)
+            if not answer_ok(gotv, exp):
+                out.append(("visualize %d returned %r, expected %r" % (e, gotv, exp), {L_STALE} if (pooled and tainted) else set()))
+            okpos = [i for i, x in enumerate(rs) if not isinstance(x, tuple)]
+            if not pooled:
+                first_bad = min([i for i, x in enumerate(rs) if isinstance(x, tuple)] + [len(rs)])
+                okpos = [i for i in okpos if i < first_bad]
+            expw = sorted([i, lv[i][0]] for i in okpos)
+            if sorted(got.get("written", [])) != expw:
+                n = len(lv)
+                lab = {L_MAP} if (pooled and n > min(n, max(cores, 2))) else set()
+                out.append(("visualize %d wrote (folder, analysis) %s, expected %s" % (e, got.get("written"), expw), lab))
+        if pooled and isinstance(exp, tuple):
+            tainted = True
+        e += 1
+    if len(outs) != e:
+        out.append(("history has %d calls, %d outcomes" % (e, len(outs)), set()))
+    if any(q for q in r["residue"]):
+        out.append(("results left on the pool's queues after the history: %s" % r["residue"],
+                    {L_STALE} if tainted else set()))
 
 
 def oracle(c, r):
@@ -381,115 +518,76 @@ def oracle(c, r):
     where labels are computed from the case (and the position in its history), never from the outcome."""
     out = []
     k = c["kind"]
-    if k in ("struct", "hist", "idx"):
-        t = desugar(c["expr"])
-        tl = labels_of_tree(t)
-        exp = expected_struct(c)
-        got = r["struct"]
-        if got != exp:
-            got_ids = [it[1] for it in got["items"]]
-            exp_ids = [it[1] for it in exp["items"]]
-            if sorted(got_ids) == sorted(exp_ids) and got_ids != exp_ids:
-                out.append(("analyses are %s, written order is %s" % (got_ids, exp_ids), tl & {L_ORDER}))
-            got_shape = (got["kind"], [(it[0], it[3] if len(it) > 3 else None) for it in got["items"]])
-            exp_shape = (exp["kind"], [(it[0], it[3] if len(it) > 3 else None) for it in exp["items"]])
-            if got_shape != exp_shape or sorted(got_ids) != sorted(exp_ids):
-                out.append(("combined analysis is %s, the expression asks for %s" % (got, exp), tl & {L_MIXED}))
-        struct_ok = got == exp
+    t = desugar(c["expr"])
+    tl = labels_of_tree(t)
+    lv = leaves(t)
+    exp = expected_struct(c)
+    got = dict(r["struct"])
+    got_exc = got.pop("exc", None)
+    if exp["kind"] == "error":
+        if got["kind"] != "error":
+            out.append(("adding to a free-parameter analysis (or freeing a single analysis) gave %s instead of an error" % got,
+                        tl & {L_FREE_RIGHT}))
+        return out
+    if got["kind"] == "error":
+        out.append(("expression raised %s, expected %s" % (got_exc, exp), set()))
+        return out
+    if got != exp:
+        got_ids = [it[1] for it in got["items"]]
+        exp_ids = [it[1] for it in exp["items"]]
+        if sorted(got_ids) == sorted(exp_ids) and got_ids != exp_ids:
+            out.append(("analyses are %s, written order is %s" % (got_ids, exp_ids), tl & {L_ORDER}))
+        got_shape = (got["kind"], [(it[0], it[3] if len(it) > 3 else None) for it in got["items"]])
+        exp_shape = (exp["kind"], [(it[0], it[3] if len(it) > 3 else None) for it in exp["items"]])
+        if got_shape != exp_shape or sorted(got_ids) != sorted(exp_ids):
+            out.append(("combined analysis is %s, the expression asks for %s" % (got, exp), tl & {L_MIXED}))
+        return out
     if k == "hist":
-        lv = leaves(desugar(c["expr"]))
-        n = len(lv)
-        cores, tainted, e = 1, False, 0
-        for op in eff_ops(c):
-            if op[0] == "cores":
-                cores, tainted = op[1], False
-                continue
-            x = op[1]
-            vals = [lik(c["ads"][j], [x]) for j, _ in lv]
-            expv = "exc" if any(v is None for v in vals) else sum(vals)
-            gotv = val_of(r["answers"][e]) if e < len(r["answers"]) else None
-            if gotv != expv:
-                out.append(("evaluation %d on instance %r with n_cores=%d returned %r, the sum of the analyses is %r"
-                            % (e, x, cores, gotv, expv), {L_STALE} if (cores > 1 and tainted) else set()))
-            if cores > 1 and expv == "exc":
-                tainted = True
-            e += 1
-        if len(r["answers"]) != e:
-            out.append(("history has %d evaluations, %d answers" % (e, len(r["answers"])), set()))
-        if any(q for q in r["residue"]):
-            out.append(("results left on the pool's queues after the history: %s" % r["residue"],
-                        {L_STALE} if (cores > 1 and tainted) else set()))
-    if k == "idx" and struct_ok:
-        lv = leaves(desugar(c["expr"]))
-        n = len(lv)
+        oracle_history(c, r, lv, lambda x: [[x]] * len(lv), out)
+    free_own = {L_FREE_OWN} if (c.get("free") is not None and any(h for _, h in lv)) else set()
+    if k in ("idx", "fit"):
         rows, count = canon(expected_keys(c))
+    if k == "idx":
+        n = len(lv)
         if r["classes"] != rows:
-            out.append(("sharing of the fitted model is %s, declared %s" % (r["classes"], rows), set()))
+            out.append(("sharing of the fitted model is %s, declared %s" % (r["classes"], rows), free_own))
         if r["count"] != count:
-            out.append(("fitted model has %d parameters, declared %d" % (r["count"], count), set()))
-        if c.get("free") is not None:
+            out.append(("fitted model has %d parameters, declared %d" % (r["count"], count), free_own))
+        if c.get("free") is not None and not free_own:
             fs = set(effective_free(c)) & set(c["default"])
             formula = len(fs) * n + len(set(c["default"]) - fs)
             if r["count"] != formula:
                 out.append(("fitted model has %d parameters, |free|*n+|shared| = %d" % (r["count"], formula), set()))
         if r["classes"] == rows:
-            cores, tainted, e = 1, False, 0
-            for op in eff_ops(c):
-                if op[0] == "cores":
-                    cores, tainted = op[1], False
-                    continue
-                vals = op[1]
-                ls = [lik(c["ads"][j], [vals[kk] for kk in rows[i]]) for i, (j, _) in enumerate(lv)]
-                expv = "exc" if any(v is None for v in ls) else sum(ls)
-                gotv = val_of(r["answers"][e]) if e < len(r["answers"]) else None
-                if gotv != expv:
-                    out.append(("evaluation %d with n_cores=%d returned %r, the sum over sub-instances is %r"
-                                % (e, cores, gotv, expv), {L_STALE} if (cores > 1 and tainted) else set()))
-                if cores > 1 and expv == "exc":
-                    tainted = True
-                e += 1
-            if any(q for q in r["residue"]):
-                out.append(("results left on the pool's queues after the history: %s" % r["residue"],
-                            {L_STALE} if (cores > 1 and tainted) else set()))
-    if k == "folders":
-        exp = [[i, j] for i, j in enumerate(c["ids"])]
-        if r["folders"] != exp:
-            n = len(c["ids"])
-            lab = {L_MAP} if (c["cores"] > 1 and n > min(n, c["cores"])) else set()
-            out.append(("visualize wrote (folder, analysis) %s, expected %s" % (r["folders"], exp), lab))
+            oracle_history(c, r, lv, lambda vals: [[vals[kk] for kk in row] for row in rows], out)
     if k == "fit":
-        exp = [[i, j] for i, j in enumerate(c["ids"])]
-        if r["attr"] != exp or r["res"] != exp:
-            out.append(("fit wrote attributes %s and results %s into folders, expected %s" % (r["attr"], r["res"], exp), set()))
-        if r["children"] != [[j, i] for i, j in enumerate(c["ids"])]:
-            out.append(("child results (analysis, model index) are %s" % r["children"], set()))
+        ids = [j for j, _ in lv]
+        pos = [[i, j] for i, j in enumerate(ids)]
+        hooks = {L_HOOKS} if any(h for _, h in lv) else set()
+        if r["attr"] != pos:
+            out.append(("save_attributes wrote (folder, analysis) %s, expected %s" % (r["attr"], pos), hooks))
+        if r["vbf"] != pos:
+            out.append(("visualize_before_fit wrote (folder, analysis) %s, expected %s" % (r["vbf"], pos), set()))
+        if r["res"] != [[i, j, j] for i, j in enumerate(ids)]:
+            out.append(("save_results wrote (folder, analysis, child result handed over) %s, expected position i, "
+                        "analysis i, child i" % r["res"], hooks))
+        if exp["kind"] == "plain":
+            base, _ = canon([[("orig", p) for p in c["default"]]])
+            expc = [[j, base[0]] for j in ids]
+        else:
+            expc = [[j, rows[i]] for i, j in enumerate(ids)]
+        if r["children"] != expc:
+            out.append(("child results (analysis, sharing classes of its model) are %s, expected %s" % (r["children"], expc),
+                        free_own))
     return out
 
 
 def case_labels(c):
-    """all labels a case carries (for the evidence histogram)"""
-    labs = set()
-    if c["kind"] in ("struct", "hist", "idx"):
-        labs |= labels_of_tree(desugar(c["expr"]))
-    if c["kind"] in ("hist", "idx"):
-        lv = leaves(desugar(c["expr"]))
-        cores, tainted = 1, False
-        for op in eff_ops(c):
-            if op[0] == "cores":
-                cores, tainted = op[1], False
-            elif cores > 1:
-                if tainted:
-                    labs.add(L_STALE)
-                # may raise?  (free/model kinds: only known with classes; approximate by fail lists)
-                if c["kind"] == "hist":
-                    if any(lik(c["ads"][j], [op[1]]) is None for j, _ in lv):
-                        tainted = True
-                elif any(c["ads"][j]["fail"] for j, _ in lv):
-                    tainted = True
-    if c["kind"] == "folders":
-        n = len(c["ids"])
-        if c["cores"] > 1 and n > min(n, c["cores"]):
-            labs.add(L_MAP)
+    labs = set(labels_of_tree(desugar(c["expr"])))
+    if c.get("free") is not None and any(h for _, h in leaves(desugar(c["expr"]))):
+        labs.add(L_FREE_OWN)
+    if c["kind"] == "fit" and any(h for _, h in leaves(desugar(c["expr"]))):
+        labs.add(L_HOOKS)
     return labs
 
 
@@ -498,23 +596,27 @@ def nontrivial(c):
     if k == "struct":
         return len(leaves(desugar(c["expr"]))) >= 3
     if k in ("hist", "idx"):
-        cores, after_raise, steered = 1, False, False
-        raised = False
+        cores, pool, steered, mapped, raised, after_raise = 1, False, False, False, False, False
         for op in eff_ops(c):
             if op[0] == "cores":
-                cores, raised = op[1], False
-            else:
-                if cores > 1 and any(not all(row) for row in op[2]):
-                    steered = True
-                if cores > 1 and raised:
-                    after_raise = True
-                if k == "hist" and any(op[1] in a["fail"] for a in c["ads"]):
+                cores = op[1]
+                if cores > 1:
+                    pool, raised = True, False
+                continue
+            pooled = cores > 1 if op[0] == "eval" else pool
+            if pooled and any(not all(row) for row in op[2]):
+                steered = True
+            if pooled and op[0] == "map":
+                mapped = True
+            if pooled and raised:
+                after_raise = True
+            if k == "hist" and pooled:
+                key = ("fail", "fail2") if op[0] == "eval" else ("vfail", "vfail2")
+                if any(op[1] in a[key[0]] or op[1] in a[key[1]] for a in c["ads"]):
                     raised = True
         if k == "idx":
-            return steered or bool(c["own"]) or bool(set(effective_free(c)) & set(c["default"]))
-        return steered or after_raise
-    if k == "folders":
-        return c["cores"] > 1
+            return steered or mapped or bool(c["own"]) or bool(set(effective_free(c)) & set(c["default"]))
+        return steered or after_raise or mapped
     return True
 
 
@@ -526,6 +628,8 @@ def coq_aval(d):
         if it[0] == "idx":
             return "IIdx %s %s %s" % (cnat(it[1]), cbool(it[2]), cnat(it[3]))
         return "IPlain %s %s" % (cnat(it[1]), cbool(it[2]))
+    if d["kind"] == "error":
+        return "VErr"
     if d["kind"] == "single":
         return "(VSingle %s %s)" % (cnat(d["items"][0][1]), cbool(d["items"][0][2]))
     kind = {"plain": "KPlain", "model": "KModel", "free": "KFree"}.get(d["kind"])
@@ -534,10 +638,10 @@ def coq_aval(d):
     return "(VComb %s %s)" % (kind, clist([item(it) for it in d["items"]]))
 
 
-def coq_res(a):
-    v = val_of(a)
-    if v == "exc":
-        return "RExc"
+def coq_res(a, scale=1):
+    v = val_of(a, scale)
+    if isinstance(v, tuple):
+        return "(RExc %s)" % cnat(EXC_KINDS.get(v[1], 9))
     if v is None:
         return "(RVal (-987654321)%Z)"
     return "(RVal %s)" % cZ(v)
@@ -548,47 +652,67 @@ def coq_masks(m):
 
 
 def coq_ads(ads):
-    return clist(["(mkA %s %s %s)" % (cZ(a["c"]), clist([cZ(x) for x in a["w"]]), clist([cZ(x) for x in a["fail"]]))
-                  for a in ads])
+    zs = lambda l: clist([cZ(x) for x in l])
+    return clist(["(mkA %s %s %s %s %s %s)" % (cZ(a["c"]), zs(a["w"]), zs(a.get("fail", [])), zs(a.get("fail2", [])),
+                                            zs(a.get("vfail", [])), zs(a.get("vfail2", []))) for a in ads])
+
+
+def cpairs(l):
+    n = lambda a: cnat(a) if 0 <= a < 4999 else "4999%nat"
+    return clist(["(%s, %s)" % (n(a), n(b)) for a, b in l])
+
+
+def coq_outs(c, r):
+    scale = c.get("scale", 1)
+    res = []
+    ops = [op for op in eff_ops(c) if op[0] != "cores"]
+    for op, o in zip(ops, r["outs"]):
+        if op[0] == "eval":
+            res.append("ObsAns (Some %s)" % coq_res(o["ans"], scale))
+        else:
+            res.append("ObsMap (Some %s) %s" % (coq_res(o["ans"], 1), cpairs(o.get("written", []))))
+    if len(ops) != len(r["outs"]):
+        res.append("ObsAns None")
+    return clist(res)
 
 
 def coq_case(c, r):
     k = c["kind"]
+    e = coq_expr(desugar(c["expr"]))
     if k == "struct":
-        return "CStruct %s %s %s" % (coq_expr(desugar(c["expr"])), cbool(c.get("free", False)), coq_aval(r["struct"]))
-    answers = lambda: clist(["(Some %s)" % coq_res(a) for a in r["answers"]])
-    residue = lambda: clist([clist([coq_res(a) for a in q]) for q in r["residue"]])
+        return "CStruct %s %s" % (e, coq_aval(r["struct"]))
+    nl = lambda l: clist([cnat(p) for p in l])
+    residue = lambda: clist([clist([coq_res(a, 1) for a in q]) for q in r["residue"]])
     if k == "hist":
         ops = []
         for op in eff_ops(c):
             if op[0] == "cores":
                 ops.append("OCores %s" % cnat(op[1]))
             else:
-                ops.append("OEval ([%s], []) %s" % (cZ(op[1]), coq_masks(op[2])))
-        return "CHist %s %s %s %s %s %s" % (coq_ads(c["ads"]), coq_expr(desugar(c["expr"])), clist(ops),
-                                            coq_aval(r["struct"]), answers(), residue())
+                ops.append("%s ([%s], []) %s" % ("OEval" if op[0] == "eval" else "OMap", cZ(op[1]), coq_masks(op[2])))
+        # residue of evaluations carries the scale; compare numerators
+        rs = clist([clist([coq_res(a, c.get("scale", 1)) for a in q]) for q in r["residue"]])
+        return "CHist %s %s %s %s %s %s" % (coq_ads(c["ads"]), e, clist(ops), coq_aval(r["struct"]), coq_outs(c, r), rs)
+    n_ads = max(j for j, _ in leaves(desugar(c["expr"]))) + 1
+    own = [c["own"].get(str(j), []) for j in range(n_ads)]
+    free = effective_free(c) if c.get("free") is not None else []
     if k == "idx":
-        n_ads = max(int(j) for j in [x for x, _ in leaves(desugar(c["expr"]))]) + 1
-        own = [c["own"].get(str(j), []) for j in range(n_ads)]
-        free = None if c["free"] is None else effective_free(c)
         ops = []
         for op in eff_ops(c):
             if op[0] == "cores":
                 ops.append("ICores %s" % cnat(op[1]))
             else:
-                ops.append("IEval %s %s" % (clist([cZ(x) for x in op[1]]), coq_masks(op[2])))
+                ops.append("%s %s %s" % ("IEval" if op[0] == "eval" else "IMap", clist([cZ(x) for x in op[1]]), coq_masks(op[2])))
         return "CIdx %s %s %s %s %s %s %s %s %s %s %s" % (
-            coq_ads(c["ads"]), coq_expr(desugar(c["expr"])), clist([cnat(p) for p in c["default"]]),
-            clist([clist([cnat(p) for p in row]) for row in own]),
-            copt(free, lambda f: clist([cnat(p) for p in f])),
-            coq_aval(r["struct"]), clist([clist([cnat(x) for x in row]) for row in r["classes"]]), cnat(r["count"]),
-            clist(ops), answers(), residue())
-    pairs = lambda l: clist(["(%s, %s)" % (cnat(max(a, 0)) if a >= 0 else "4999%nat", cnat(b) if b >= 0 else "4999%nat")
-                             for a, b in l])
-    if k == "folders":
-        return "CFolders %s %s %s" % (clist([cnat(j) for j in c["ids"]]), cnat(c["cores"]), pairs(r["folders"]))
+            coq_ads(c["ads"]), e, nl(c["default"]), clist([nl(row) for row in own]), nl(free),
+            coq_aval(r["struct"]), clist([nl(row) for row in r["classes"]]), cnat(r["count"]),
+            clist(ops), coq_outs(c, r), residue())
     if k == "fit":
-        return "CFit %s %s %s %s" % (clist([cnat(j) for j in c["ids"]]), pairs(r["attr"]), pairs(r["res"]), pairs(r["children"]))
+        n = lambda a: cnat(a) if 0 <= a < 4999 else "4999%nat"
+        res = clist(["(%s, (%s, %s))" % (n(a), n(b), n(g)) for a, b, g in r["res"]])
+        ch = clist(["(%s, %s)" % (n(j), clist([n(x) for x in row])) for j, row in r["children"]])
+        return "CFit %s %s %s %s %s %s %s %s" % (e, nl(c["default"]), clist([nl(row) for row in own]), nl(free),
+                                              cpairs(r["attr"]), cpairs(r["vbf"]), res, ch)
     return None
 
 
@@ -601,14 +725,13 @@ def run_impl_chunks(cases, workers):
         d = dict(c)
         d["idx"] = i
         idx_cases.append(d)
-    # heavy kinds spread evenly
     order = sorted(range(len(cases)), key=lambda i: (cases[i]["kind"] == "struct", i))
     chunks = [[] for _ in range(workers)]
     for pos, i in enumerate(order):
         chunks[pos % workers].append(i)
     chunks = [ch for ch in chunks if ch]
     outs = common.run_impl_parallel("c15_impl", [{"cases": [idx_cases[i] for i in ch]} for ch in chunks],
-                                    timeout=1500, workers=workers)
+                                    timeout=2400, workers=workers)
     results = [None] * len(cases)
     err = None
     for ch, o in zip(chunks, outs):
@@ -617,42 +740,56 @@ def run_impl_chunks(cases, workers):
             continue
         for i, r in zip(ch, o["results"]):
             results[i] = r
+    # a timeout of the steering harness is a harness matter first: retry that case alone, once
+    for i, r in enumerate(results):
+        if r is not None and "timeout" in r:
+            o = common.run_impl("c15_impl", {"cases": [idx_cases[i]]}, timeout=900)
+            if "__error__" not in o:
+                first = r["timeout"]
+                results[i] = o["results"][0]
+                if "timeout" in results[i]:
+                    results[i]["timeout"] = "twice: %s / %s" % (first, results[i]["timeout"])
     return results, err
 
 
 def run(ctx):
-    ctx.rule = ("cases are abstract inputs of five kinds (struct: an expression over analyses; hist: a sum + a history of "
-                "evaluations/raising evaluations/changes of n_cores with a scripted pool schedule per evaluation; idx: free "
-                "parameters or per-analysis models + histories on instances of the fitted model; folders; real fits). "
-                "Non-trivial: struct with >= 3 analyses; hist with a pool whose scripted schedule withholds a result at least "
-                "once or that evaluates after a raising evaluation; idx with an effective free parameter, an own model or a "
-                "withholding schedule; folders through the pool; every real fit. distinct = distinct abstract input")
+    ctx.rule = ("cases are abstract inputs of four kinds (struct: an expression over analyses incl. with_model leaves, repeated "
+                "analyses and with_free_parameters anywhere; hist: a sum + a history of evaluations / raising evaluations of two "
+                "exception classes / visualize calls / changes of n_cores with a scripted pool schedule per call; idx: free "
+                "parameters and/or per-analysis models + histories on instances of the fitted model; real fits of plain, "
+                "with_model and free-parameter sums on 1-2 cores). Non-trivial: struct with >= 3 analyses; hist with a pool whose "
+                "scripted schedule withholds a result at least once, that visualizes through the pool or that is used after a "
+                "raising call; idx with an effective free parameter, an own model, a pool visualize or a withholding schedule; "
+                "every real fit. distinct = distinct abstract input")
     ctx.trusted = [
         "Coq 8.16.1 kernel incl. vm_compute",
-        "correspondence harness c15.py / impl/c15_impl.py: harness analyses (affine, integer valued => float sums exact), "
+        "correspondence harness c15.py / impl/c15_impl.py: harness analyses (affine, integer or k/1024 valued => float sums exact), "
         "expression builder, desugaring of sum([...]) into a left fold of +, model builder from prior-id lists, "
         "canonical numbering of prior identities (by Prior.id)",
         "schedule steering: the main-process side of each AnalysisProcess.queue is wrapped by a proxy whose empty() follows the "
         "scripted availability mask (not available => True; available => waits for the real item, then False); workers, "
-        "queues, pickling, __call__, results, map are the real code",
+        "queues, pickling, __call__, results, map are the real code; a few hist cases per run are not steered at all",
         "modelled not verified: multiprocessing.Queue is FIFO per queue; AnalysisProcess._run handles its instance queue "
         "sequentially; OS scheduling and feeder-thread timing are represented by the availability masks (universally "
-        "quantified in the theorems, sampled on the implementation side)",
+        "quantified in the theorems, sampled on the implementation side); fork start method",
     ]
     ctx.assumptions = [
-        "likelihood values are integers in the model (Z): float rounding of a sum taken in a different order is not covered",
-        "which of the four recorded defects the model contains is read from known_findings/C15.json (status known => present); "
-        "the repaired behaviour is proved for cfg_fixed",
-        "with_free_parameters is applied to the finished sum only; FreeParameterAnalysis + x raises TypeError in the code "
-        "(missing free_parameters) and is outside the model",
+        "likelihood values are integers or multiples of 1/1024 (exact binary64 sums); for inexact addends the pool adds in arrival "
+        "order, so its float sum may differ from the serial one in the last place and depend on the schedule - recorded as a "
+        "tolerance decision, not checked",
+        "which recorded defects the model contains is read from known_findings/C15.json (status known => present); "
+        "the four defects of the snapshot are fixed in /repo; theorems about cfg_snapshot / drain = false are historical",
+        "an expression that adds to a FreeParameterAnalysis, or frees a single analysis, must raise (TypeError/AttributeError)",
+        "when several analyses raise on one instance the pool may raise the exception of any of them (serial: the first)",
     ]
     cfg = model_cfg(ctx)
     ctx.notes["model_cfg"] = cfg
-    built = ctx.build()
+    ctx.notes["env"] = {k: os.environ[k] for k in ("C15_ASSUME_FIXED", "C15_WAIT", "C15_CASE_LIMIT", "VERIF_REPO") if k in os.environ}
+    ctx.build()
     cases = gen_cases(ctx)
     corpus_dir = os.path.join(common.VERIF, "corpus", "C15")
     if os.path.isdir(corpus_dir):
-        for f in sorted(os.listdir(corpus_dir)):
+        for f in sorted(os.listdir(corpus_dir), reverse=True):
             if f.endswith(".json"):
                 cases.insert(0, json.load(open(os.path.join(corpus_dir, f)))["case"])
     if ctx.replay:
@@ -665,6 +802,7 @@ def run(ctx):
         return
     coq_cases, coq_idx = [], []
     oracle_msgs = {}
+    timeouts = []
     for i, (c, r) in enumerate(zip(cases, results)):
         key = {k: v for k, v in c.items() if k != "idx"}
         ctx.count_case(key, nontrivial(c), c["kind"])
@@ -672,17 +810,28 @@ def run(ctx):
             ctx.hist("label", lab)
         if c["kind"] in ("hist", "idx"):
             ctx.hist("n_analyses", len(leaves(desugar(c["expr"]))))
-            ctx.hist("evaluations", sum(1 for op in c["ops"] if op[0] == "eval"))
             ctx.hist("cores_from_config", bool(c.get("conf_cores")))
-            for op in eff_ops(c):
+            ctx.hist("scale", c.get("scale", 1))
+            ctx.hist("steered", not c.get("unsteered"))
+            for op in c["ops"]:
+                ctx.hist("op", op[0])
                 if op[0] == "cores":
                     ctx.hist("cores", op[1])
                 else:
                     ctx.hist("scripted_passes", len(op[2]))
+        if c["kind"] == "fit":
+            ctx.hist("fit_variant", expected_struct(c)["kind"] + ("+own" if c.get("free") is not None and c["own"] else ""))
+            ctx.hist("fit_cores", c.get("conf_cores", 1))
         ctx.oracle["cases"] += 1
+        if r is not None and "timeout" in r:
+            timeouts.append((i, r["timeout"]))
+            continue
         if r is None or "exc" in r:
             ctx.oracle["failures"] += 1
-            ctx.failure("oracle", "implementation raised %s: %s" % ((r or {}).get("exc"), (r or {}).get("msg")), c, impl=r)
+            # a real fit of free parameters over own models dies in modify_before_fit (part of that finding)
+            labs = [L_FREE_OWN] if (c["kind"] == "fit" and L_FREE_OWN in case_labels(c)) else []
+            ctx.failure("oracle", "implementation raised %s: %s" % ((r or {}).get("exc"), (r or {}).get("msg")), c,
+                        classes=labs, impl=r)
             continue
         msgs = oracle(c, r["ok"])
         oracle_msgs[i] = msgs
@@ -695,9 +844,18 @@ def run(ctx):
             coq_idx.append(i)
         if i % 41 == 0:
             ctx.sample({"case": key if len(str(key)) < 500 else {"kind": c["kind"], "expr": c.get("expr")}}, limit=8)
+    if timeouts:
+        # the steering harness gave up twice on the same case: the pool never delivered / never returned
+        i, msg = timeouts[0]
+        ctx.obligation("impl-driver:pool-returns", "harness", False,
+                       "%d case(s) timed out twice, first: case %d (%s): %s" % (len(timeouts), i, cases[i]["kind"], msg))
+        ctx.failure("harness", "the pool never returned on this case (steering harness timed out twice): %s" % msg,
+                    cases[i], impl=None, found_input=True)
+    else:
+        ctx.obligation("impl-driver:pool-returns", "harness", True, "no steering timeout")
     if os.path.exists(os.path.join(common.COQ, "C15", "Model.vo")):
-        hdr = ctx.header(["Model"]) + "\nDefinition the_cfg := mkCfg %s %s %s %s.\n" % (
-            cbool(cfg["fix_order"]), cbool(cfg["fix_new"]), cbool(cfg["fix_drain"]), cbool(cfg["fix_map"]))
+        hdr = ctx.header(["Model"]) + "\nDefinition the_cfg := mkCfg %s %s %s %s %s %s.\n" % tuple(
+            cbool(cfg[f]) for f in ("fix_order", "fix_new", "fix_drain", "fix_map", "fix_free_own", "fix_model_hooks"))
         bad, log = ctx.eval_cases(hdr, "case", "check_case the_cfg", coq_cases, shard=80)
         if bad:
             for b in bad[:5]:
@@ -710,16 +868,18 @@ def run(ctx):
 
 
 MANIFEST = {
-    "text": "Coq 8.16 theorems over a model of Analysis.__add__/CombinedAnalysis (+ algebra for every bracketing), the serial sum, "
-            "the AnalysisPool as a transition system (per-process FIFO queues, availability masks = every schedule, histories with "
-            "raising evaluations and changes of n_cores), FreeParameterAnalysis/CombinedModelAnalysis.modify_model (sharing "
-            "characterisation and |free|*n+|shared| count), child results and folders; the model is parametrised by the four "
-            "recorded defects (full statements proved for the repaired code, refuted with witnesses and proved under explicit guards "
-            "for the pinned code); vm_compute correspondence with the running code under externally steered pool schedules and a "
-            "direct property oracle on every generated case",
+    "text": "Coq 8.16 theorems over a model of Analysis.__add__/CombinedAnalysis (+ algebra for every bracketing, errors for sums "
+            "with a FreeParameterAnalysis), the serial sum, the AnalysisPool as a transition system (per-process FIFO queues, "
+            "availability masks = every schedule, histories of evaluations / visualize calls through map / raising calls of several "
+            "exception classes / changes of n_cores), FreeParameterAnalysis/CombinedModelAnalysis.modify_model (sharing "
+            "characterisation and |free|*n+|shared| count), the fit pipeline modify_before_fit -> make_result -> save_results "
+            "(position i = analysis i = child i = folder i) and an end-to-end statement over expressions; the model is parametrised "
+            "by the recorded defects; vm_compute correspondence with the running code under externally steered pool schedules, "
+            "real MockSearch fits, and a direct property oracle on every generated case",
     "note": "Trusted: Coq kernel + vm_compute, the correspondence harness incl. the queue proxies that steer pool schedules. "
-            "Likelihoods are integers in the model (float summation order not covered); OS scheduling is represented by "
-            "availability masks; FreeParameterAnalysis + x (TypeError in the code) is outside the model.",
+            "Likelihoods are integers or multiples of 1/1024 (float rounding of inexact sums in arrival order not covered); OS "
+            "scheduling is represented by availability masks; theorems about cfg_snapshot / drain=false describe the historical "
+            "snapshot, not /repo.",
     "technique": "machine-checked proof in Coq (transition-system model, induction over histories and schedules) + vm_compute "
                  "correspondence under steered schedules",
 }
